@@ -465,13 +465,7 @@ func runC03(a *Args) error {
 		in := CApp("mk_input", sch, CList(stmtTerms), CStr(TestScope), CList(fsTerms), CList(chainTerms), CBool(e.tokOK[ekey]))
 		obs := CApp("mk_obs", authTerm, CList(callTerms), CBool(c.Stop))
 		term := CApp("mk_case", CN(my), in, obs)
-		placed := false
-		for _, t := range fsTerms {
-			_ = t
-		}
-		if c.Real {
-			placed = true
-		}
+		placed := c.Real
 		for _, s := range c.Stores {
 			for _, x := range s.Certs {
 				for _, y := range e.ids {
